@@ -96,6 +96,14 @@ def expected_deps(r2):
 
 
 def check_case(ctx, base, points, makers, base_outs=None):
+    try:
+        return _check_case(ctx, base, points, makers, base_outs)
+    except Exception as e:
+        ctx.violation("render-raises", "building/rendering raised %r" % e, {"base": base, "makers": makers})
+        return False
+
+
+def _check_case(ctx, base, points, makers, base_outs):
     is_list = base["k"] == "list"
     if base_outs is None:
         base_outs = renderings(gen.build(base), is_list)
